@@ -91,10 +91,38 @@ impl Runner {
         }
     }
 
+    /// structured values: powers of two and ten, limb boundaries (multiples of 2^64, 2^32),
+    /// and their neighbours — the places where carries and word-wise shortcuts go wrong
+    pub fn structured(&mut self, cap: u128) -> u128 {
+        if cap == 0 {
+            return 0;
+        }
+        let v = match self.rng.weighted(&[25, 15, 25, 15, 10, 10]) {
+            0 => 1u128 << self.rng.range(1, 126),
+            1 => {
+                let b = 1u128 << self.rng.range(2, 126);
+                if self.rng.chance(50, 100) { b - 1 } else { b + 1 }
+            }
+            2 => (self.rng.range(1, 2000) as u128) << 64,
+            3 => 10u128.pow(self.rng.range(1, 37) as u32),
+            4 => (self.rng.range(1, 5) as u128) << 96,
+            _ => (self.rng.range(1, 2000) as u128) << 32,
+        };
+        if v <= cap {
+            v
+        } else {
+            // largest power of two not above the cap keeps the value structured
+            1u128 << (127 - cap.leading_zeros())
+        }
+    }
+
     /// an amount in (0, cap] biased toward interesting magnitudes
     pub fn amount_upto(&mut self, cap: u128) -> u128 {
         if cap == 0 {
             return 0;
+        }
+        if self.rng.chance(6, 100) {
+            return self.structured(cap);
         }
         match self.rng.weighted(&[8, 30, 40, 12, 10]) {
             0 => 1,
@@ -356,6 +384,9 @@ impl Runner {
                     2 => self.rng.range128((cap / 50).max(1), (cap / 2).max(1)),
                     _ => self.amount_upto(cap),
                 };
+                if self.rng.chance(8, 100) {
+                    d[k] = self.structured(cap.max(1));
+                }
                 if d[k] < p.mins[k] && self.rng.chance(85, 100) {
                     d[k] = p.mins[k].min(b[k].max(1));
                 }
